@@ -131,7 +131,7 @@ def make(i, base_seed, tier, lite_tx=False, lite_rx=False):
         k = rng.random()
         if k < 0.55:
             ops.append({"op": "send", "buf": hx(common.rand_payload(rng, rng.randint(1, 32))), "fr": rng.choice([0, 0, 1, 2, 3]),
-                        "so": rng.random() < 0.3, "na": mode == "noack" and rng.random() < 0.7})
+                        "so": rng.random() < 0.3, "na": (mode == "noack" and rng.random() < 0.7) or (mode == "ackpl" and rng.random() < 0.25)})
         elif k < 0.7:
             ops.append({"op": "sendlist", "bufs": [hx(common.rand_payload(rng, rng.randint(1, 32))) for _ in range(rng.randint(1, 3))],
                         "fr": rng.choice([0, 0, 1]), "so": rng.random() < 0.3, "na": mode == "noack" and rng.random() < 0.7,
@@ -221,7 +221,7 @@ def _run(scn, w, res):
         per = 130 * US + (1 + arc) * (air + ard_eff + 10 * US)
         return ncyc * per + per + 120 * _spi_max(mcu) + 2 * MS
 
-    def check_call(name, payloads, ret, t0, c0, a0, fr, so, is_list, resend_of=None):
+    def check_call(name, payloads, ret, t0, c0, a0, fr, so, is_list, resend_of=None, na=False):
         nonlocal failed
         cycles = rt.cycles[c0:]
         pkts = [t for t in w.air.trace[a0:] if t["src"] == "T" and not t["ack"]]
@@ -258,6 +258,9 @@ def _run(scn, w, res):
                     res.add("truth", {"kind": "no_cycle", "op": name}, "%s(%s) started no transmit cycle for its payload; returned %r" % (name, hx(pay)[:16], r))
                 continue
             res.nontrivial = True
+            if na and cfg.get("allow_ask_no_ack", True) and any(cy["expects_ack"] for cy in mine):
+                res.add("truth", {"kind": "ask_no_ack_ignored", "op": name, "mode": mode},
+                        "%s(ask_no_ack=True) was transmitted requesting an acknowledgement (attempts %r, result %s)" % (name, [cy["attempts"] for cy in mine], mine[-1]["result"]))
             ok = mine[-1]["result"] == "tx_ds"
             if ok != bool(r) and not (r is None and ok):
                 res.add("truth", {"kind": "false_negative" if ok else "false_positive", "op": name, "fr": min(fr, 1)},
@@ -328,14 +331,14 @@ def _run(scn, w, res):
             sim.log("call", "T", "send", len(pay), op["fr"], op["so"], op["na"])
             ret = tx.send(pay, ask_no_ack=op["na"], force_retry=op["fr"], send_only=op["so"])
             sim.log("ret", "T", repr(ret))
-            check_call("send", [pay], ret, t0, c0, a0, op["fr"], op["so"], False)
+            check_call("send", [pay], ret, t0, c0, a0, op["fr"], op["so"], False, na=op["na"])
         elif op["op"] == "sendlist":
             pays = [unhx(b) for b in op["bufs"]]
             arg = tuple(pays) if op.get("tuple") else list(pays)
             sim.log("call", "T", "sendlist", len(pays), op["fr"], op["so"], op["na"])
             ret = tx.send(arg, ask_no_ack=op["na"], force_retry=op["fr"], send_only=op["so"])
             sim.log("ret", "T", repr(ret))
-            check_call("send(list)", pays, ret, t0, c0, a0, op["fr"], op["so"], True)
+            check_call("send(list)", pays, ret, t0, c0, a0, op["fr"], op["so"], True, na=op["na"])
         elif op["op"] == "resend":
             sim.log("call", "T", "resend", op["so"])
             want = failed
